@@ -1,13 +1,14 @@
 ------------------------------ MODULE TraceC18 ------------------------------
 (* Trace specification for C18: the same traces as TraceC17 (real compile + real expand of   *)
 (* a TLC-enumerated case, replayed against TALVM for drift) judged by the C18 clauses:        *)
-(*   Escaped         the element skeleton (start/end tags with attribute names) the           *)
+(*   Escaped         the element skeleton (the sequence of start and end tags) the             *)
 (*                   independent tokenizer finds in the output is the skeleton TALSem         *)
 (*                   predicts: context data introduced no markup (unless the template asks    *)
 (*                   for `structure` with a value that carries markup), and the character    *)
 (*                   data reads back as exactly the data: it was escaped, whatever it looks   *)
 (*                   like                                                                     *)
-(*   AttrEscaped     the same with the attribute values: data did not break out of a value    *)
+(*   AttrEscaped     the same with the attribute lists (names and values) of every start tag: *)
+(*                   data did not break out of an attribute value                             *)
 (*   PythonGated     allowPythonPath off => the side-effect canary of python: was not touched  *)
 (*                   (kind "handler": the same through handlers/tal.py's allowpythonpath)     *)
 (*   PassThrough     a TAL-free document expands to an equivalent token stream (elements,     *)
